@@ -1,6 +1,8 @@
 /* C01 - compression is lossless and RFC 1951/1950/1952 conformant, for every parameter combination
  * and every implementation variant the dispatcher can select. */
 #include "codec_common.h"
+static long nfail;
+#include "c01_encdf.h"
 
 #define MAXIN (800 * 1024)
 static uint8_t *inbuf;
@@ -28,7 +30,6 @@ static int vcache_add(uint64_t k)
 	return 1;
 }
 
-static long nfail;
 static void one(const struct cparams *p, int cpu, uint64_t in_id, size_t len)
 {
 	char key[400], why[256];
@@ -264,6 +265,12 @@ int main(int argc, char **argv)
 {
 	v_init(argc, argv, "C01");
 	inbuf = malloc(MAXIN);
+	if (v_part && !strcmp(v_part, "encdf")) {
+		encdf_part();
+		if (v_shard == 0)
+			v_note("encdf part: the three ICF->bits encoders on every assignment of 16 token realisations (widths 2..48, dense around the lane limits 28/29/31/32) to the four lanes of a half-vector x both halves x bit phases 0..7, compared bit for bit with an independent concatenation");
+		return v_finish();
+	}
 	if (v_part && !strcmp(v_part, "reuse")) {
 		stateless_reuse();
 		if (v_shard == 0)
